@@ -22,7 +22,15 @@ from vlib.session import run_case, Violation
 PID = "C18"
 
 # backend whose zeros are object arrays so that symbolic coefficients can be accumulated
-ar.register_function("zobj", "zeros", lambda shape, **kw: np.zeros(shape, dtype=object))
+def _zobj_zeros(shape, dtype=None, **kw):
+    # float / complex buffers become object arrays (they can hold terms); any other requested dtype (e.g. an integer
+    # buffer) is honoured, so that a term written into it is seen as the cast it would be for numpy users
+    if dtype is None or str(np.dtype(dtype)) in ("float64", "float32", "complex128", "complex64", "object"):
+        return np.zeros(shape, dtype=object)
+    return np.zeros(shape, dtype=dtype)
+
+
+ar.register_function("zobj", "zeros", _zobj_zeros)
 
 
 def like_for(S):
@@ -198,6 +206,9 @@ def body_array(S, spec):
     sym, bases, ims = spec["sym"], spec["bases"], spec["index_maps"]
     modes = sorted({m for b in bases for st in b for m in st})
     terms = [(S.scalar(f"c{k}"), ops) for k, (_, ops) in enumerate(spec["terms"])]
+    if spec.get("first_literal") is not None:
+        # a literal (int / float) first coefficient, as in the library's own number-operator terms
+        terms[0] = (spec["first_literal"], terms[0][1])
     if S.mode == "sym":
         import z3
         for k in range(len(terms)):
@@ -253,6 +264,8 @@ def body_action(S, spec):
     F = Fock(modes)
     like = like_for(S)
     t1 = [(S.scalar(f"c{k}"), ops) for k, (_, ops) in enumerate(spec["terms"])]
+    if spec.get("first_literal") is not None:
+        t1[0] = (spec["first_literal"], t1[0][1])
     G1 = sr.build_local_fermionic_array(lib_terms(S, t1), lib_bases(bases), sym, index_maps=list(index_maps), like=like)
     addr = [leg_address(im) for im in index_maps]
     psi = state_tensor(S, sym, index_maps, spec["charge"], ("psi", 1))
@@ -391,13 +404,22 @@ def build_family(tier, seed):
         ("U1U1", [[(), ("d",), ("u",), ("u", "d")]], [[(0, 0), (0, 1), (1, 0), (1, 1)]]),
         ("Z2", [[(), ("a",)], [(), ("b",)], [(), ("c",)]], [[0, 1]] * 3), ("U1", [[(), ("a",)], [(), ("b",)], [(), ("c",)]], [[0, 1]] * 3),
         ("Z2", [[(), ("ad",), ("au",), ("au", "ad")], [(), ("bd",), ("bu",), ("bu", "bd")]], [[0, 1, 1, 0]] * 2),
+        ("Z2Z2", [[(), ("d",), ("u",), ("u", "d")]], [[(0, 0), (0, 1), (1, 0), (1, 1)]]),
+        ("Z2Z2", [[(), ("ad",), ("au",), ("au", "ad")], [(), ("bd",), ("bu",), ("bu", "bd")]], [[(0, 0), (0, 1), (1, 0), (1, 1)]] * 2),
+        ("U1U1", [[(), ("ad",), ("au",), ("au", "ad")], [(), ("bd",), ("bu",), ("bu", "bd")]], [[(0, 0), (0, 1), (1, 0), (1, 1)]] * 2),
     ]
     for sym, bs, ims in confs:
         modes = sorted({m for b in bs for st in b for m in st})
         # operators that conserve the symmetry charge: built from pairs (create m, annihilate m') - even strings
         pairs = [[(m, True), (m2, False)] for m in modes for m2 in modes]
-        if sym in ("U1U1",):
+        if sym in ("U1U1", "Z2Z2"):
             pairs = [[(m, True), (m, False)] for m in modes]
+            ups = [m for m in modes if m.endswith("u")]
+            downs = [m for m in modes if m.endswith("d")]
+            for grp in (ups, downs):
+                pairs += [[(m, True), (m2, False)] for m in grp for m2 in grp if m != m2]
+            if sym == "Z2Z2":
+                pairs += [[(m, True), (m2, True)] for grp in (ups, downs) for m in grp for m2 in grp if m < m2]
         ops_list = [p for p in pairs] + [p + q for p in pairs[:3] for q in pairs[:3]]
         if sym == "Z2":
             ops_list += [[(m, True), (m2, True)] for m in modes for m2 in modes if m != m2][:4] + [[(m, False), (m2, False)] for m in modes for m2 in modes if m != m2][:2]
@@ -406,7 +428,7 @@ def build_family(tier, seed):
             for k in range(10 if not thorough else 60):
                 tl = [(None, rng.choice(ops_list)) for _ in range(rng.choice((1, 2, 3)))]
                 tl2 = [(None, rng.choice(ops_list)) for _ in range(rng.choice((1, 2)))] if k % 2 == 0 else None
-                ac.append(dict(sym=sym, bases=bs, index_maps=ims, charge=q, terms=tl, terms2=tl2))
+                ac.append(dict(sym=sym, bases=bs, index_maps=ims, charge=q, terms=tl, terms2=tl2, first_literal=(None, 1, None, 3)[k % 4]))
     # arrays over heterogeneous bases: sites with different orderings / subsets of states and hence different charge maps
     ar_ = []
     het = [
@@ -424,7 +446,8 @@ def build_family(tier, seed):
             pairs = [[(m, True), (m, False)] for m in modes] + [[("u", True), ("v", False)], [("v", True), ("u", False)], [("d", True), ("w", False)]]
         opsl = pairs + [p_ + q_ for p_ in pairs[:3] for q_ in pairs[-3:]]
         for k in range(12 if not thorough else 80):
-            ar_.append(dict(sym=sym, bases=bs, index_maps=ims, terms=[(None, rng.choice(opsl)) for _ in range(rng.choice((1, 2, 3)))]))
+            ar_.append(dict(sym=sym, bases=bs, index_maps=ims, terms=[(None, rng.choice(opsl)) for _ in range(rng.choice((1, 2, 3)))],
+                            first_literal=(None, 1, 2, 0.5)[k % 4]))
     groups["array-heterogeneous-bases"] = ([dict(body="body_array", spec=c, sample=(i % 30 == 0), seed=seed + i) for i, c in enumerate(ar_)], False)
     groups["action"] = ([dict(body="body_action", spec=c, sample=(i % 100 == 0), seed=seed + i) for i, c in enumerate(ac)], False)
     return groups
